@@ -3,6 +3,7 @@ package main
 import (
 	"bytes"
 	"fmt"
+	"sort"
 	"strconv"
 	"strings"
 	"time"
@@ -183,6 +184,7 @@ func (c *PClient) ReadReply() Reply {
 			}
 			if n > 0 {
 				c.rbuf = c.rbuf[n:]
+				c.logReply(r)
 				return r
 			}
 		}
@@ -244,4 +246,18 @@ func cmdDelete(key string) []byte { return []byte("delete " + key + "\r\n") }
 
 func cmdIncr(key string, delta int64) []byte {
 	return []byte(fmt.Sprintf("incr %s %d\r\n", key, delta))
+}
+
+// logReply adds the reply to the canonical event log (items sorted: multi-get order follows Go
+// map iteration and is not part of the behaviour).
+func (c *PClient) logReply(r Reply) {
+	s := c.g.S
+	items := append([]RItem(nil), r.Items...)
+	sort.Slice(items, func(i, j int) bool { return items[i].Key < items[j].Key })
+	for _, it := range items {
+		s.logEvent("item", it.Key, int64(it.Flag), it.Bytes)
+	}
+	if r.Status != "END" || len(r.Stats) == 0 {
+		s.logEvent("reply", r.Status+" "+r.Msg, c.g.W.Steps(), nil)
+	}
 }
